@@ -17,6 +17,7 @@ class C11(Check):
         "logged_not_dropped_three_endpoints_counterexample",
         # the cluster
         "second_hop_no_echo", "net_only_entitled", "net_no_discard",
+        "no_duplicate", "finite", "finite_and_no_duplicate", "hdepth_of_rank",
         "finite_and_no_duplicate_partial", "complete_when_connected_partial",
         "no_duplicate_three_endpoints_counterexample",
     ]
@@ -34,15 +35,19 @@ class C11(Check):
                   "own zone peer) persists the message, the origin zone travels in the message - together: the executable specification holds "
                   "on the model's own output. Cluster-wide, for every topology and every delivery order (induction over deliveries): every "
                   "message ever put on the wire goes to an entitled zone and carries an origin that makes the recipient accept it (nothing is "
-                  "discarded when the originator is entitled), and the second hop never returns to the zone the event came from. The two "
-                  "composition statements (no endpoint processes an event twice / at most one message per endpoint; everybody entitled "
-                  "processes it when masters are connected) are NOT proved in general: they are shipped as `..._partial`, established by "
-                  "kernel evaluation over an explicitly enumerated finite family of small topologies (stated in the theorem), plus a "
-                  "kernel-checked counterexample showing that the 'at most two endpoints per zone' restriction of the property is necessary. "
+                  "discarded when the originator is entitled), and the second hop never returns to the zone the event came from; and - GENERAL, "
+                  "for every zone forest with detached global zones, at most two endpoints per zone, symmetric static connectivity, every "
+                  "originator, object zone, iteration order and delivery order, by the 'compass' history invariant - no endpoint processes "
+                  "the event twice, all recipients of messages ever sent are pairwise different (so fewer messages than endpoints are ever "
+                  "sent: the event cannot circulate), i.e. the cluster-wide executable specification holds in every reachable state "
+                  "(`no_duplicate`, `finite`, `finite_and_no_duplicate`), with a kernel-checked counterexample showing that 'at most two "
+                  "endpoints per zone' is necessary. The completeness statement (everybody entitled processes the event when masters are "
+                  "connected) is NOT proved in general: it is shipped as `complete_when_connected_partial`, established by kernel evaluation "
+                  "over an explicitly enumerated finite family (stated in the theorem). "
                   "The transcription is tied to the code by differential execution of the real ApiListener::RelayMessage.")
     level_note = ("Trusted: Lean kernel (+ propext, Classical.choice, Quot.sound), the sampled/enumerated correspondence, harness/driver. "
                   "Not modelled: connectivity changing while an event is in flight (C12), the `syncing` window (Q-C12b), TCP/TLS, the "
-                  "`ts`-based discard of old messages in MessageHandler (C12). The cluster-wide no-duplicate and completeness statements are "
+                  "`ts`-based discard of old messages in MessageHandler (C12). The cluster-wide completeness statement is "
                   "partial (finite family + simulation of the network model on every generated topology, all originators and object zones, "
                   "seeded connectivity and delivery orders), not a proof of the unbounded claim.")
     trusted_base = [
